@@ -214,6 +214,10 @@ func (s *Sim) Step(r *Replica, moreToApply, busySnap bool, crash CrashPoint, cut
 	// the known single-voter window (apply and send before the WAL write) is excluded by
 	// moving the crash behind the WAL write when the finding is recorded as known
 	single := len(before.Voters) <= 1 || raft.VerifLogPeek(r.Node).Quorum <= 1
+	if crash != NoCrash && s.crashExcluded(r) {
+		s.St.ExcludedKnown++
+		crash = NoCrash
+	}
 	crash = s.adjustCrash(r, &rd, isMeNewLeader, single, len(msgs), crash)
 
 	if crash == CrashReadyLost {
@@ -264,9 +268,9 @@ func (s *Sim) Step(r *Replica, moreToApply, busySnap bool, crash CrashPoint, cut
 			s.crashNow(r, crash, cut)
 			return true
 		}
-		// wal.Save: sync iff MustSync(st, w.state, len(ents)); nothing written -> nothing to sync
+		// wal.Save: nothing to write -> return; else sync iff raft.MustSync(st, w.state, len(ents))
 		wrote := len(r.Disk.Recs) > from
-		mustSync := wrote && (len(rd.Entries) != 0 || (!raft.IsEmptyHardState(rd.HardState) && (rd.HardState.Vote != prev.Vote || rd.HardState.Term != prev.Term)))
+		mustSync := wrote && raft.MustSync(rd.HardState, prev, len(rd.Entries))
 		if mustSync || hasSnap { // processReady syncs explicitly after an incoming snapshot
 			r.Disk.sync()
 		}
@@ -368,10 +372,83 @@ const (
 	// a bootstrap member that lost the Ready carrying the bootstrap conf entries
 	// re-learns the membership entry by entry and elects itself while it only knows itself
 	KnownPartialBootstrap = "C01-partial-bootstrap-self-election"
+	// a replica started as learner that restarts from a durable record whose committed
+	// prefix does not yet contain its own AddLearner entry comes back with isLearner ==
+	// false and then refuses every snapshot that lists it as learner
+	KnownLearnerSnapshot = "C03-restarted-learner-refuses-snapshot"
+	// RocksStorage.ApplySnapshot keeps the entries above the snapshot index
+	KnownRocksStaleTail = "C03-rocksstorage-stale-tail-after-snapshot"
+	// a learner that was promoted but has not applied its own promotion yet ignores vote
+	// requests; if the voters that know of the promotion need its vote, no leader can
+	// ever be elected again (not excluded from generation: the C03 heal verdict
+	// recognises the signature)
+	KnownPromotedLearnerNoVote = "C03-promoted-learner-ignores-votes"
+	// wal.ReadAll skips entry records at or below the snapshot index, also when such a
+	// record is the one that truncated the entries above it: after a restart the
+	// truncated suffix above the snapshot is back
+	KnownWalResurrect = "C03-wal-replay-resurrects-truncated-suffix"
 )
 
 // KnownIDs lists them; a property package turns on those that known.Active reports.
-var KnownIDs = []string{KnownSingleVoterWindow, KnownPartialBootstrap}
+var KnownIDs = []string{KnownSingleVoterWindow, KnownPartialBootstrap, KnownLearnerSnapshot, KnownRocksStaleTail, KnownWalResurrect}
+
+// wouldResurrect: with a snapshot marker for sn in the durable record, a restart of r
+// would read back entries above sn that are not r's log (its log then ends at trueLast;
+// entries up to trueLast are compared by term through term()).
+func (s *Sim) wouldResurrect(r *Replica, sn pb.Snapshot, trueLast uint64, term func(i uint64) (uint64, bool)) bool {
+	d := Durable{Recs: append(append([]WalRec(nil), r.Disk.Recs...), WalRec{Kind: RecSnap, Snap: sn})}
+	hs := r.Disk.lastState()
+	if hs.Commit < sn.Metadata.Index {
+		hs.Commit = sn.Metadata.Index
+	}
+	d.Recs = append(d.Recs, WalRec{Kind: RecState, HS: hs})
+	got, _, ents, err := d.Replay()
+	if err != nil || got.Metadata.Index != sn.Metadata.Index {
+		return false
+	}
+	for i := range ents {
+		if ents[i].Index > trueLast {
+			return true
+		}
+		if term != nil {
+			if t, ok := term(ents[i].Index); ok && t != ents[i].Term {
+				return true
+			}
+		}
+	}
+	return false
+}
+
+// learnerVulnerable: r was started as a learner and the committed prefix of its durable
+// record does not (yet) make it a member.
+func (s *Sim) learnerVulnerable(r *Replica) bool {
+	if !r.Learner {
+		return false
+	}
+	sn, hs, ents, err := r.Disk.Replay()
+	if err != nil {
+		return false
+	}
+	cs := sn.Metadata.ConfState
+	c := NewConfFold(cs.Nodes...)
+	for _, l := range cs.Learners {
+		c.Learners[l] = true
+	}
+	for i := range ents {
+		if ents[i].Index <= hs.Commit {
+			c.ApplyEntry(&ents[i])
+		}
+	}
+	return !c.Voters[r.ID] && !c.Learners[r.ID]
+}
+
+// crashExcluded: a crash of r now would produce the trigger of a recorded finding.
+func (s *Sim) crashExcluded(r *Replica) bool {
+	if s.Known[KnownLearnerSnapshot] && s.learnerVulnerable(r) {
+		return true
+	}
+	return false
+}
 
 // bootstrapVulnerable: r is a bootstrap member whose durable record does not yet hold
 // the bootstrap entries as committed.
@@ -563,7 +640,7 @@ func (s *Sim) crashNow(r *Replica, point CrashPoint, cut func(n int) int) {
 		if keep < n {
 			all := r.Disk.Recs
 			r.Disk.Recs = all[:r.Disk.Synced+keep]
-			if s.Known[KnownPartialBootstrap] && s.bootstrapVulnerable(r) {
+			if (s.Known[KnownPartialBootstrap] && s.bootstrapVulnerable(r)) || s.crashExcluded(r) {
 				// would leave a bootstrap member without its committed bootstrap entries
 				r.Disk.Recs = all
 				s.St.ExcludedKnown++
@@ -591,7 +668,7 @@ func (s *Sim) Crash(r *Replica, cut func(n int) int) {
 	if !r.Up {
 		return
 	}
-	if s.Known[KnownPartialBootstrap] && s.bootstrapVulnerable(r) {
+	if (s.Known[KnownPartialBootstrap] && s.bootstrapVulnerable(r)) || s.crashExcluded(r) {
 		s.St.ExcludedKnown++
 		return
 	}
@@ -645,7 +722,13 @@ func (s *Sim) Restart(r *Replica, keepEngine bool) {
 	for _, o := range s.Obs {
 		o.StorageRebuilt(s, r, sn, hs, ents)
 	}
-	if s.guard(r, "RestartNode", func() { r.Node = raft.RestartNode(s.config(r)) }) {
+	if s.guard(r, "RestartNode", func() {
+		if s.P.RealCtor {
+			r.Node = raft.RestartNode(s.config(r))
+		} else {
+			r.Node = raft.VerifRestartNode(s.config(r), simRecvQueue, simPropQueue)
+		}
+	}) {
 		return
 	}
 	r.Up = true
@@ -681,6 +764,17 @@ func (s *Sim) Snapshot(r *Replica, catchup uint64) bool {
 	li, err := r.Store.LastIndex()
 	if err != nil || snapi > li {
 		return false // production waits for raftDone: applied <= storage last index
+	}
+	if s.Known[KnownWalResurrect] {
+		st, terr := r.Store.Term(snapi)
+		probe := pb.Snapshot{Metadata: pb.SnapshotMetadata{Index: snapi, Term: st}}
+		if terr == nil && s.wouldResurrect(r, probe, li, func(i uint64) (uint64, bool) {
+			t, e := r.Store.Term(i)
+			return t, e == nil
+		}) {
+			s.St.ExcludedKnown++
+			return false
+		}
 	}
 	cs := a.Conf
 	data := []byte(fmt.Sprintf("state@%d", snapi))
